@@ -206,12 +206,18 @@ Proof.
   pose proof (commit_migrate_status c m ok w) as H. destruct (commit_migrate c m ok). exact H.
 Qed.
 
+Lemma migrate_next_status c p g t os w : status_of (fst (fst (migrate_next c p g t os))) w = status_of c w.
+Proof.
+  unfold migrate_next. destruct (plan_migrate c p g t) as [e|m]; cbn [fst]; auto.
+  destruct (next_outcome os) as [o os'].
+  pose proof (commit_migrate_status c m o w) as H. destruct (commit_migrate c m o). exact H.
+Qed.
+
 Lemma evacuate_status word w0 aff w : forall c os, status_of (fst (evacuate c word w0 aff os)) w = status_of c w.
 Proof.
   induction aff as [|[g p] r IH]; intros c os; cbn [evacuate fst]; auto.
   destruct (failover_target c word w0) as [t|].
-  - destruct (next_outcome os) as [o os'].
-    pose proof (migrate_status c p g t o w) as H1. destruct (migrate c p g t o) as [c1 res1]. cbn [fst] in H1.
+  - pose proof (migrate_next_status c p g t os w) as H1. destruct (migrate_next c p g t os) as [[c1 b] os']. cbn [fst] in H1.
     specialize (IH c1 os'). destruct (evacuate c1 word w0 r os'). cbn [fst] in *. congruence.
   - specialize (IH c os). destruct (evacuate c word w0 r os). exact IH.
 Qed.
@@ -219,8 +225,7 @@ Qed.
 Lemma run_migrations_status ms w : forall c os, status_of (fst (run_migrations c ms os)) w = status_of c w.
 Proof.
   induction ms as [|[[g p] t] r IH]; intros c os; cbn [run_migrations fst]; auto.
-  destruct (next_outcome os) as [o os'].
-  pose proof (migrate_status c p g t o w) as H1. destruct (migrate c p g t o) as [c1 res1]. cbn [fst] in H1.
+  pose proof (migrate_next_status c p g t os w) as H1. destruct (migrate_next c p g t os) as [[c1 b] os']. cbn [fst] in H1.
   specialize (IH c1 os'). destruct (run_migrations c1 r os'). cbn [fst] in *. congruence.
 Qed.
 
